@@ -124,6 +124,30 @@ def run(ctx):
     ctx.cov['status_histogram'] = {k: sum(1 for _, p, _ in kept if p['status'] == v) for k, v in (('done', 0), ('budget', 2))}
     if verdicts and verdicts[0] != 3:
         ctx.cov['sentinel_corner_witness'] = 'unexpected verdict %r' % (verdicts[0],)
+    # native contention probe (implementation only, one-sided): fresh threads collide on their first threadId() call; more rounds when the
+    # correspondence above is broken (search for a concrete failing input)
+    rounds = (300 if ctx.quick else 3000) * (10 if ctx.broken else 1)
+    slines = ['stress %d %d' % (nt, rounds) for nt in (4, 8, 16, 16)]
+    souts = ls_common.run_cases(exe, slines, jobs=2)
+    sterms, skept = [], []
+    for l, o in zip(slines, souts):
+        m = re.match(r'stress round (-?\d+) ids((?: \d+)+)', o or '')
+        if not m:
+            ctx.broken.append('native contention probe output unreadable: %s -> %s' % (l, (o or '')[:200]))
+            continue
+        sterms.append(dv.coq_list(m.group(2).split()))
+        skept.append((l, o))
+    import pf_common
+    sres = pf_common.coq_judge(ctx, 'stress', 'From DV Require Import Model.C45Check.', [('judge_round', sterms)])
+    if sres is None:
+        ctx.broken.append('native contention probe: judge_round no longer evaluates')
+    else:
+        for v, (l, o) in zip(sres[0], skept):
+            if v == 2:
+                ctx.violation('threadId: two threads making their first call concurrently obtained the same id (native run, %s): %s' % (l, o[:300]),
+                              {'case': l, 'output': o, 'cmd': 'echo "%s" | build/harness/h_threadid-*   (probabilistic: contention dependent)' % l})
+    ctx.cov['native_contention_probe'] = {'runs': len(slines), 'rounds_each': rounds, 'threads': [4, 8, 16, 16]}
+    ctx.cov['evaluations'] += len(slines)
     ctx.sample({'case': line_of(cases[0])[:120], 'impl': outs[0][:300]})
     ctx.sample({'case': line_of(cases[1])[:160], 'impl': outs[1][:400]})
     ctx.sample({'case': line_of(cases[4])[:200], 'impl': outs[4][:300]})
